@@ -55,7 +55,7 @@ def declared_params(o, item, doc=None):
 def work(args):
     label, doc, seed, nvec, cfg = args
     rng = random.Random(seed)
-    out = {"label": label, "doc": doc, "cases": [], "error": None, "skipped": []}
+    out = {"label": label, "doc": doc, "cfg": cfg, "cases": [], "error": None, "skipped": []}
     try:
         with impl.Gen(doc, cfg=cfg) as g:
             if g.exc is not None:
@@ -412,16 +412,136 @@ def classify_call_failure(case, which):
     return None
 
 
+
+# ------------------------------------------------------------------ client life cycle (Client.v)
+CLIENT_HDR = "Require Import OPC.Uni OPC.Client.\nFrom Coq Require Import NArith List. Import ListNotations. Open Scope N_scope.\n"
+AUTH_NAMES = ["Authorization", "X-API-Key", "X-Token"]
+PLAIN_KEYS = ["X-Trace", "accept-language", "X-Other", "x-trace", "User-Agent2"]
+CLASH_KEYS = ["authorization", "AUTHORIZATION", "x-api-key"]      # outside the theorem's guard: spelt differently from the auth header name they collide with
+LIFE_DOC = {"openapi": "3.1.0", "info": {"title": "t", "version": "1"}, "paths": {"/me": {"get": OPS.op("get_me", [OPS.P("verbose", "query", {"type": "boolean"}, False)], security=[{"key": []}])}},
+            "components": {"securitySchemes": {"key": {"type": "http", "scheme": "bearer"}}}}
+
+
+def client_seq(rng, guarded=True):
+    steps, shadow = [], []       # shadow: what each client's OWN credential is, from the steps alone
+    tok = iter("tok%d" % j for j in range(1000))
+    def new():
+        h = {rng.choice(PLAIN_KEYS): "v%d" % rng.randint(0, 9) for _ in range(rng.randint(0, 2))}
+        if not guarded and rng.random() < 0.5:
+            h[rng.choice(CLASH_KEYS)] = "user-supplied"
+        st = {"k": "new", "tok": next(tok), "pre": rng.choice(["Bearer", "Bearer", "Token", ""]), "auth": rng.choice(AUTH_NAMES[:2] if rng.random() < 0.8 else AUTH_NAMES), "headers": h}
+        steps.append(st)
+        shadow.append({"tok": st["tok"], "pre": st["pre"], "auth": st["auth"], "built": set(), "dirty": False})
+    new()
+    for _ in range(rng.randint(4, 14)):
+        i = rng.randrange(len(shadow))
+        c = shadow[i]
+        r = rng.random()
+        if r < 0.08:
+            new()
+        elif r < 0.25:
+            st = {"k": "evolve_token", "i": i, "tok": next(tok)}
+            steps.append(st); shadow.append(dict(c, tok=st["tok"], built=set(), dirty=False))
+        elif r < 0.32:
+            st = {"k": "evolve_auth", "i": i, "pre": rng.choice(["Bearer", "Key", ""]), "auth": rng.choice(AUTH_NAMES if guarded else AUTH_NAMES + ["authorization"])}
+            steps.append(st); shadow.append(dict(c, pre=st["pre"], auth=st["auth"], built=set(), dirty=False))
+        elif r < 0.45:
+            steps.append({"k": "derive", "i": i, "how": rng.choice(["with_timeout", "with_cookies", "evolve_flag"])}); shadow.append(dict(c, built=set(), dirty=False))
+        elif r < 0.55:
+            h = {rng.choice(PLAIN_KEYS): "w%d" % rng.randint(0, 9) for _ in range(rng.randint(1, 2))}
+            if not guarded and rng.random() < 0.5:
+                h[rng.choice(CLASH_KEYS)] = "user-supplied"
+            steps.append({"k": "with_headers", "i": i, "h": h}); shadow.append(dict(c, built=set(), dirty=False))
+        elif r < 0.62:
+            st = {"k": "set_token", "i": i, "tok": next(tok)}
+            steps.append(st)
+            c["dirty"] = c["dirty"] or bool(c["built"])
+            c["tok"] = st["tok"]
+        else:
+            v = rng.choice(["sync", "async"])
+            steps.append({"k": "use", "i": i, "variant": v, "own": None if c["dirty"] else ((c["pre"] + " " + c["tok"]) if c["pre"] else c["tok"])})
+            c["built"] = c["built"] | {v}
+    return steps
+
+
+def cdict(h):
+    return "[" + "; ".join(f"({cstr(k)}, {cstr(v)})" for k, v in h.items()) + "]"
+
+
+def cstep(st):
+    k = st["k"]
+    if k == "new":
+        return f"New {cstr(st['tok'])} {cstr(st['pre'])} {cstr(st['auth'])} {cdict(st['headers'])}"
+    if k == "evolve_token":
+        return f"EvolveToken {st['i']}%nat {cstr(st['tok'])}"
+    if k == "evolve_auth":
+        return f"EvolveAuth {st['i']}%nat {cstr(st['pre'])} {cstr(st['auth'])}"
+    if k == "derive":
+        return f"Derive {st['i']}%nat"
+    if k == "with_headers":
+        return f"WithHeaders {st['i']}%nat {cdict(st['h'])}"
+    if k == "set_token":
+        return f"SetToken {st['i']}%nat {cstr(st['tok'])}"
+    return f"Use {st['i']}%nat {'Sync' if st['variant'] == 'sync' else 'Async'}"
+
+
+def client_life_cycle(run, tier):
+    """stage B: the generated AuthenticatedClient run through operation sequences == Client.run; stage C: every use by a client whose token was not
+    reassigned after its httpx client was built carries that client's OWN credential (sequences inside the guard of ClientThm.own_credential)."""
+    rng = random.Random(run.rng.randrange(1 << 30))
+    n = 60 if tier == "quick" else 600
+    seqs = [(client_seq(rng, guarded=(j % 4 != 3)), j % 4 != 3) for j in range(n)]
+    # fixed sequences first (the shapes a life-cycle regression needs): use, derive with a new token, use the derived one - both variants
+    for v1 in ("sync", "async"):
+        for v2 in ("sync", "async"):
+            seqs.insert(0, ([{"k": "new", "tok": "A", "pre": "Bearer", "auth": "Authorization", "headers": {}}, {"k": "use", "i": 0, "variant": v1, "own": "Bearer A"},
+                             {"k": "evolve_token", "i": 0, "tok": "B"}, {"k": "use", "i": 1, "variant": v2, "own": "Bearer B"}, {"k": "derive", "i": 1, "how": "with_timeout"},
+                             {"k": "set_token", "i": 2, "tok": "C"}, {"k": "use", "i": 2, "variant": v1, "own": "Bearer C"}, {"k": "use", "i": 0, "variant": v2, "own": "Bearer A"},
+                             {"k": "with_headers", "i": 0, "h": {"X-Trace": "1"}}, {"k": "use", "i": 3, "variant": v1, "own": "Bearer A"}, {"k": "use", "i": 0, "variant": v1, "own": "Bearer A"}], True))
+    with impl.Gen(LIFE_DOC) as g:
+        if g.exc is not None:
+            run.violation("harness-or-generator", {"label": "client-life-cycle", "error": repr(g.exc), "doc": LIFE_DOC})
+            return
+        res = impl.run_client(g.out, [{"op": "client_seq", "module": "api.default.get_me", "steps": s} for s, _ in seqs], timeout=600)
+    if isinstance(res, dict):
+        run.violation("harness-error", {"label": "client-life-cycle", "error": res.get("fatal", "")[:1500]})
+        return
+    terms, meta = [], []
+    for (steps, guarded), r in zip(seqs, res):
+        outs = r.get("steps") if isinstance(r, dict) else None
+        run.note_case({"client_life_cycle": [st["k"] for st in steps], "guarded": guarded}, nontrivial=any(st["k"] == "use" for st in steps), kind="client_life_cycle")
+        if outs is None or any(isinstance(o, dict) and "exc" in o for o in outs):
+            run.violation("oracle", {"label": "client-life-cycle", "doc": LIFE_DOC, "steps": steps, "impl": r, "note": "a client life-cycle step raised"})
+            continue
+        exp = "[" + "; ".join("None" if o is None else "Some [" + "; ".join(cstr(v) for v in o["vals"]) + "]" for o in outs) + "]"
+        terms.append(f"outs_eqb (snd (run init [{'; '.join(cstep(st) for st in steps)}])) {exp}")
+        meta.append((steps, outs))
+        if guarded:
+            for st, o in zip(steps, outs):
+                if st["k"] == "use" and st["own"] is not None and o["vals"] != [st["own"]]:
+                    run.violation("oracle", {"label": "client-life-cycle", "doc": LIFE_DOC, "steps": steps, "step": st, "sent": o["vals"], "all_headers": o["all"],
+                                             "note": f"client #{st['i']} did not send exactly its own credential {st['own']!r} under its auth header"})
+                    break
+    bad = run_cases(CLIENT_HDR, terms, shard=200) if terms else []
+    for i in bad[:5]:
+        steps, outs = meta[i]
+        run.violation("correspondence", {"label": "client-life-cycle", "doc": LIFE_DOC, "steps": steps, "impl": [None if o is None else o["vals"] for o in outs],
+                                         "model": coq_eval(CLIENT_HDR, f"snd (run init [{'; '.join(cstep(st) for st in steps)}])")[-900:],
+                                         "note": "the generated AuthenticatedClient no longer behaves like Client.v, for which own_credential is proved"})
+    run.extra["client_life_cycle_sequences"] = len(terms)
+    return len(terms), len(bad)
+
+
 def run(run, tier, replay=None):
     rng = run.rng
-    docs = [(l, d, None) for l, d in OPS.atlas_docs()]
+    docs = [(l, d, None) for l, d in OPS.atlas_docs()] + OPS.atlas_override_docs()
     nrand = 4 if tier == "quick" else 40
     for i in range(nrand):
         docs.append((f"rand{i}", OPS.random_doc(random.Random(rng.randrange(1 << 30)), n_ops=rng.randint(4, 8)), None))
     nvec = 4 if tier == "quick" else 12
     if replay:
         rp = json.load(open(replay))
-        docs = [(v.get("label", "replay"), v["doc"], None) for v in rp["violations"] if "doc" in v][:5]
+        docs = [(v.get("label", "replay"), v["doc"], v.get("cfg")) for v in rp["violations"] if "doc" in v][:5]
     run.rule = ("documents: atlas of operations (every parameter kind x {query, header, cookie} required+optional with names needing pythonisation; 0-3 path "
                 "parameters declared out of order; path-item parameters with operation-level override; one name in several locations; reserved names; json / form / "
                 "suffix+json / charset bodies; two media types; security) + random operations; per operation: argument vectors (all set, optionals unset, random "
@@ -435,14 +555,14 @@ def run(run, tier, replay=None):
     terms, meta = [], []
     for di, r in enumerate(results):
         if r["error"]:
-            run.violation("harness-or-generator", {"label": r["label"], "error": r["error"], "doc": r["doc"]})
+            run.violation("harness-or-generator", {"label": r["label"], "error": r["error"], "doc": r["doc"], "cfg": r.get("cfg")})
             continue
         hdr += f"Definition T{di} : ctable := {r['ctable']}.\nDefinition O{di} : oracles := {r['oracles']}.\n"
         for c in r["cases"]:
             nontriv = bool(c["vec"])
             run.note_case({"doc": r["label"], "op": c["op"], "args": c["vec"]}, nontrivial=nontriv, kind="with_body" if "body" in c["vec"] else "params_only")
             if "unrepresentable" in c:
-                run.violation("correspondence", {"label": r["label"], "doc": r["doc"], "op": c["op"], "args": c["vec"], "impl": c["kw"],
+                run.violation("correspondence", {"label": r["label"], "doc": r["doc"], "cfg": r.get("cfg"), "op": c["op"], "args": c["vec"], "impl": c["kw"],
                                                  "note": "generated _get_kwargs produced something the model cannot represent: " + c["unrepresentable"]})
                 continue
             terms.append(f"kw_case2 T{di} {c['cep']} {c['cargs'].replace('O@', f'O{di}').replace('T@', f'T{di}')} {c['obs']}")
@@ -463,7 +583,7 @@ def run(run, tier, replay=None):
         for ent in (r.get("mp") or []):
             run.note_case({"doc": r["label"], "cls": ent["cls"], "multipart_instance": ent["data"]}, kind="to_multipart")
             if "unrepresentable" in ent:
-                run.violation("correspondence", {"label": r["label"], "doc": r["doc"], "cls": ent["cls"], "instance": ent["data"], "impl": ent["res"], "note": "to_multipart returned something the model cannot represent: " + ent["unrepresentable"]})
+                run.violation("correspondence", {"label": r["label"], "doc": r["doc"], "cfg": r.get("cfg"), "cls": ent["cls"], "instance": ent["data"], "impl": ent["res"], "note": "to_multipart returned something the model cannot represent: " + ent["unrepresentable"]})
                 continue
             mterms.append(f"mp_case O{di} T{di} {ent['cid']}%N {ent['j']} {ent['obs']}")
             mmeta.append((di, ent))
@@ -484,6 +604,11 @@ def run(run, tier, replay=None):
         mv = coq_eval(hdr, f"get_kwargs T{di} 40 {c['cep']} {c['cargs'].replace('O@', f'O{di}').replace('T@', f'T{di}')}")
         run.violation("correspondence", {"label": results[di]["label"], "doc": results[di]["doc"], "op": c["op"], "args": c["vec"], "impl": c["kw"], "model": mv[-900:],
                                          "note": "generated _get_kwargs no longer behaves like Endpoint.v, for which placement is proved"})
+    if not replay or any(v.get("label") == "client-life-cycle" for v in rp["violations"]):
+        lc = client_life_cycle(run, tier)
+        if lc:
+            run.corr["cases"] += lc[0]; run.corr["mismatches"] += lc[1]
+            run.corr["what"] += "; AuthenticatedClient operation sequences (new / evolve / with_* / token assignment / sync+asyncio use) == Client.run"
     # ---- stage C
     n_req = 0
     for i, (di, c) in enumerate(meta):
